@@ -46,6 +46,11 @@ class _Extras:
         self.__dict__.setdefault("_journal", []).append(("blank", n))
         return n + 1
 
+    def half(self, n: int = 0) -> int:
+        """Shrinks to 50% of %(what)s -- a percent sign in a docstring is text, not a format."""
+        self.__dict__.setdefault("_journal", []).append(("half", n))
+        return n // 2
+
     @property
     def mood(self) -> str:
         """The mood."""
